@@ -14,11 +14,13 @@ VERIFIERS = [("register", "verify_register_elaborate"), ("monitor_l1", "verify_m
 def add_to(run):
     import importlib
     obs, done, skipped = [], [], []
-    for mod, fn in VERIFIERS:
+    from contracts import action_l1
+    todo = [(mod, fn, None) for mod, fn in VERIFIERS] + [("action_l1", f"action#{k}", f) for k, f in enumerate(action_l1.ALL)]
+    for mod, fn, direct in todo:
         if run.tier == "quick" and fn == "verify_arbiter_fanout":
             continue                      # 11k obligations to generate; the grant contract executes the same method
         try:
-            fv = getattr(importlib.import_module("contracts." + mod), fn)()
+            fv = direct() if direct is not None else getattr(importlib.import_module("contracts." + mod), fn)()
         except Unsupported as e:
             skipped.append(f"{fn}: {e}")
             continue
